@@ -348,6 +348,36 @@ let run_recvmeta fields = match fields with
     show_pstate s' ^ "|" ^ (match s' with PNode (_, c) -> hex_of_bytes c | PAbsent -> "-")
   | _ -> failwith "recvmeta: want 6 fields"
 
+
+(* ---- atomic replacement: states at every token boundary ---- *)
+let run_atomic fields = match fields with
+  | [prior; chunks; cut; good] ->
+    let o = { g_dry = false; g_links = true; g_devices = true; g_specials = true; g_perms = true; g_times = true;
+              g_uid = false; g_gid = false; g_am_root = true; g_umask = z_of_int 18 } in
+    let e = { e_name = [z_of_int 102]; e_len = Z0; e_mtime = z_of_string "1000000000";
+              e_mode = z_of_int (32768 + 420); e_uid = Z0; e_gid = Z0; e_rdev = Z0; e_link = []; e_csum = [] } in
+    let s0 = (match prior with
+      | "none" -> PAbsent
+      | "empty" -> PNode ({ l_kind = KReg; l_perm = z_of_int 420; l_mtime = Z0; l_uid = Z0; l_gid = Z0; l_link = []; l_rdev = Z0; l_nonempty = false }, [])
+      | h -> PNode ({ l_kind = KReg; l_perm = z_of_int 420; l_mtime = Z0; l_uid = Z0; l_gid = Z0; l_link = []; l_rdev = Z0; l_nonempty = false }, bytes_of_hex h)) in
+    let ch = List.map bytes_of_hex (split ';' chunks) in
+    let c = int_of_string cut in
+    let rec nat_of_int n = if n <= 0 then O else S (nat_of_int (n - 1)) in
+    let upto = if c < 0 then None else Some (nat_of_int c) in
+    let oldp = (match s0 with PNode (st, _) -> Some st.l_perm | PAbsent -> None) in
+    let steps = recv_steps o e ch upto (good = "1") oldp now_sentinel in
+    let show (a : astate) =
+      (match a.a_path with
+       | PAbsent -> "-"
+       | PNode (st, c) -> if st.l_kind = KReg then "f" ^ hex_of_bytes c else "other") ^ "|" ^
+      (match a.a_temp with None -> "none" | Some t -> hex_of_bytes t) in
+    let nobs = (if c < 0 then List.length ch + 1 else c + 1) in
+    let rec firstn n l = if n <= 0 then [] else match l with [] -> [] | x :: r -> x :: firstn (n - 1) r in
+    let at k = show (a_run e.e_name now_sentinel { a_path = s0; a_temp = None } (firstn k steps)) in
+    let mids = List.init nobs (fun i -> at (i + 1)) in
+    String.concat "," (mids @ [show (a_run e.e_name now_sentinel { a_path = s0; a_temp = None } steps)])
+  | _ -> failwith "atomic: want 4 fields"
+
 (* ---- option parser ---- *)
 let run_popt fields = match fields with
   | [argv] ->
@@ -475,6 +505,7 @@ let dispatch comp fields =
   | "decision" -> run_decision fields
   | "gensums" -> run_gensums fields
   | "genops" -> run_genops fields
+  | "atomic" -> run_atomic fields
   | "recvmeta" -> run_recvmeta fields
   | "ssession" -> run_ssession fields
   | "flist_dec" -> run_flist_dec fields
